@@ -486,6 +486,7 @@ class DataPath:
                 and is_single_cond
                 and isinstance(part.condition, cnds.Key)
                 and part.condition.callable.name == "equal_to"
+                and isinstance(part.condition.callable.kwargs["value"], (str, float))
             ):
                 out.append(part.condition.callable.kwargs["value"])
             elif (
